@@ -17,6 +17,8 @@ pub(super) use test_multiply::execute_test_multiply;
 pub use self::hybrid::execute_hybrid_protocol;
 #[cfg(feature = "ipa-verif")]
 pub(crate) use self::hybrid::Query as VerifHybridQuery;
+#[cfg(feature = "ipa-verif")]
+pub(crate) use self::reshard_tag::reshard_aad as verif_reshard_aad;
 use crate::{error::Error, query::ProtocolResult};
 
 pub(super) type QueryResult = Result<Box<dyn ProtocolResult>, Error>;
